@@ -44,6 +44,40 @@ def run_static(out, tier, seed):
     out.extra.update({"programs": len(progs), "paths": len(traces), "probe_runs": nruns})
 
 
+def run_stmts(out, tier, seed):
+    """the for / with shapes of XformStmts run for real: the events delivered are the model's GivenText (TraceXformStmts)"""
+    import json
+    import os
+    import random
+    from concurrent.futures import ThreadPoolExecutor
+    from .. import core
+    cfg = open(os.path.join(core.SPECS, "XformStmtsMC.cfg")).read().replace("POSTCONDITION Report", "INVARIANT Export\nPOSTCONDITION Report")
+    r = core.run_tlc("XformStmtsMC", cfg, workers=1, timeout=900)
+    out.add_tlc("XformStmtsMC[export]", r)
+    cases = [{"id": i, "st": json.loads(t[1]), "I": json.loads(t[2])} for i, t in enumerate(r.tagged("STMT"))]
+    rng = random.Random(seed * 7919 + 307)
+    if tier == "quick" and len(cases) > 1500:
+        cases = rng.sample(cases, 1500)
+    work = core.scratch("c02s-")
+    chunks = [cases[i::8] for i in range(8)]
+
+    def one(ix):
+        jin, jout = os.path.join(work, f"sc{ix}.json"), os.path.join(work, f"so{ix}.json")
+        json.dump(chunks[ix], open(jin, "w"))
+        core.run_driver("harness.drivers.stmt_driver", [jin, jout, work], timeout=1800)
+        return core.run_tlc("TraceXformStmts", "TraceXformStmts.cfg", env={"TRACE_FILE": jout}, workers=1, timeout=900), json.load(open(jout))
+    with ThreadPoolExecutor(max_workers=8) as ex:
+        res = list(ex.map(one, range(len(chunks))))
+    for i, (t, runs) in enumerate(res):
+        out.add_tlc(f"TraceXformStmts[{i}]", t)
+        by = {c["id"]: c for c in runs}
+        for tup in t.tagged("FAIL"):
+            c = by[tup[1]]
+            out.judge({"clause": tup[2], "stmt": c["st"]["s"], "family": "FS2"}, {"case": c, "at": tup[3]})
+    out.traces += len(cases)
+    out.extra["xformstmts_shapes_run"] = len(cases)
+
+
 def run_models(out, tier, seed):
     """M level of the rewrite: TLC over every small statement shape (Xform: assignments, XformStmts: the other binding
     statements); the Stream law holds exactly where no difference class applies, and the classes are the known ones"""
@@ -54,6 +88,7 @@ def run_models(out, tier, seed):
         out.judge({"clause": "XformStmtsModel"}, {"tlc": r.out[-2500:]})
     sigs = sorted(t[1] for t in r.tagged("SIGNATURE"))
     out.extra["xformstmts_signatures"] = sigs
+    run_stmts(out, tier, seed)
     unexpected = [x for x in sigs if x not in ("DeclaredOnlySupplied",)]
     if unexpected:
         out.drift.append(f"XformStmts derives difference classes that are not recorded findings: {unexpected}")
